@@ -371,3 +371,18 @@ _EXTRA6 = {
 }
 for _k, _v in _EXTRA6.items():
     CLAIMED[_k]["text"] = CLAIMED[_k]["text"].rstrip() + " " + _v.strip()
+
+
+# clauses added in round 7 (seeded changes) and round N (behaviour-preserving probes, DESIGN 9.7)
+_EXTRA7 = {
+    "C01": "Also (round 7): the reserve-fee guard compares the 128-bit fee difference with reserve_fee widened to u128 (no narrowing of the fee side).",
+    "C02": "Also (round 7): the precomputed tree-hash table is consulted only for allocator small-ints, under its bounds guard (shared C17.1).",
+    "C09": "Also (round 7): the trusted helpers evaluate under ChiaDialect::new(flags.to_clvm_flags()) with the caller's flags unmasked; "
+           "is_high_priority_condition is true exactly for AGG_SIG_* (43..50) and CREATE_COIN (51) (decision table over every u16) (C09.8).",
+    "C12": "Also (round 7): no integer of the Merkle set / proof code is narrowed beyond the reviewed index widths (node index u32, bit position "
+           "u8); from_leafs hands its leaf slice to the tree builder whole (C12.5).",
+    "C16": "Also (round N): the G1 flag rule is additionally decided as a decision table evaluated on all 256 first bytes x zero-body x "
+           "uncompress outcome, so an if-chain and a match over the same values are the same table.",
+}
+for _k, _v in _EXTRA7.items():
+    CLAIMED[_k]["text"] = CLAIMED[_k]["text"].rstrip() + " " + _v.strip()
